@@ -1045,6 +1045,18 @@ fn case_store(ctx: &mut Ctx, k: Consts, sub: u64) {
             ctx.report.count("store-skip-index-compared");
         }
     }
+    // lz4 / zstd: every compressed block starts with the frame the model puts around the raw codec
+    if !matches!(comp, Compressor::None) {
+        for c in cps.iter().take(120) {
+            let lens: Vec<usize> = (c.0..c.1).map(|d| docs[d as usize].len()).collect();
+            let mf = ctx.model.ask(&format!("C09 frame {}", nat_list(&lens)));
+            if c.3 - c.2 < 4 || mf != hex(&file[c.2..c.2 + 4]) {
+                ctx.report.violation("model", "C09:block-frame", format!("{} block of docs {}..{}: header {} but the model's frame is {mf}", compressor_name(&comp), c.0, c.1, hex(&file[c.2..(c.2 + 4).min(c.3)])), case.clone());
+                break;
+            }
+        }
+        ctx.report.count("store-block-frame-compared");
+    }
     // model correspondence on whole files (compressor none)
     let total: usize = file.len();
     if matches!(comp, Compressor::None) && total <= 300_000 {
@@ -2788,6 +2800,7 @@ pub fn run(ctx: &mut Ctx) {
         "version-1 doc store: model deserializeDocV 1 = what the real reader returns before a merge".into(),
         "JSON number classification: OwnedValue::from(serde_json::Value) = model jsonNumber".into(),
         "TantivyDocument node_data (leaf encodings, address tables) = model cdAdd, byte for byte".into(),
+        "lz4 / zstd blocks: 4-byte length frame = model framed codec header".into(),
     ];
     // ---- child: one phase, or one replayed case, in this process -------------------------------
     if let Ok(phase) = std::env::var("TVH_C09_CHILD") {
